@@ -181,6 +181,12 @@ func histNontrivial(h *scen.History, v oracle.Verdict) bool {
 
 // c01Judge builds h on memstore, verifies every ref and compares with the model.
 func c01Judge(c *fw.Ctx, h *scen.History, gitBudget *int, fidelity bool) {
+	histJudge(c, h, gitBudget, fidelity, false)
+}
+
+// histJudge is shared by C01 and C07; fromEntries additionally verifies from
+// every authorized, unrevoked earlier entry of each ref (VerifyRefFromEntry).
+func histJudge(c *fw.Ctx, h *scen.History, gitBudget *int, fidelity bool, fromEntries bool) {
 	rsl.VerifResetCache() // single-threaded shard: no other user of the process-wide parse cache
 	b := scen.NewMem()
 	built, _ := h.Build(b)
@@ -240,6 +246,30 @@ func c01Judge(c *fw.Ctx, h *scen.History, gitBudget *int, fidelity bool) {
 			if lerr != nil && last.HasPolicy && last.Valid && last.Kind == "push" {
 				anyViolation = true
 				c.Violation("false-reject-latest-only", map[string]string{"error": strings.SplitN(errClass(lerr), ":", 3)[1]}, fmt.Sprintf("VerifyRef (latest only) rejected %s whose latest entry is authorized: %v", ref, lerr), cs)
+			}
+			if !fromEntries {
+				return
+			}
+			for _, e := range v.Entries {
+				if e.Kind != "push" || !e.Valid || e.Skipped {
+					continue
+				}
+				fv := oracle.EvalRefFrom(h, ref, e.Event)
+				c.Eval(1)
+				_, ferr := policy.NewPolicyVerifier(b).VerifyRefFromEntry(scen.Ctx, ref, built.EntryID[e.Event])
+				if !fv.Judged {
+					c.NotJudged("from-entry: " + fv.Reason)
+					continue
+				}
+				c.Nontrivial(fw.Hash(h, ref, e.Event))
+				if fv.Accept && ferr != nil {
+					anyViolation = true
+					c.Violation("false-reject-from-entry", map[string]string{"error": strings.SplitN(errClass(ferr), ":", 3)[1]}, fmt.Sprintf("verification of %s from event %d should succeed: %v", ref, e.Event, ferr), cs)
+				}
+				if !fv.Accept && ferr == nil {
+					anyViolation = true
+					c.Violation("false-accept-from-entry", map[string]string{"offender": c01Offender(fv)}, fmt.Sprintf("verification of %s from event %d accepted although %s", ref, e.Event, fv.Reason), cs)
+				}
 			}
 		})
 	}
